@@ -1,4 +1,249 @@
-import CosetModel.Api
+/-
+  C16 — label ordering is a total order equal to CBOR's deterministic key ordering.
+-/
+import CosetProofs.Order
 namespace Coset.Props.C16
+open Coset Coset.Cbor
+
+/-- the deterministic encoding of a label. -/
+def encLabel (l : Label) : Bytes :=
+  match l with
+  | .int i => enc (.int i)
+  | .text t => enc (.text t)
+
+theorem toVec_eq (l : Label) : Label.toVec l = .ok (encLabel l) := by cases l <;> rfl
+
+/-- length-first-then-bytewise comparison (RFC 7049 §3.9). -/
+def lenLex (a b : Bytes) : Ordering := if a.length != b.length then compare a.length b.length else lexCmp a b
+
+def I64 (i : Int) : Prop := i64Min ≤ i ∧ i ≤ i64Max
+def ValidLabel : Label → Prop
+  | .int i => I64 i
+  | .text t => t.length < 2 ^ 64
+
+theorem compare_lt {a b : Int} (h : a < b) : compare a b = .lt := by simp [compare, compareOfLessAndEq, h]
+theorem compare_gt {a b : Int} (h : b < a) : compare a b = .gt := by
+  have h1 : ¬ a < b := by omega
+  have h2 : ¬ a = b := by omega
+  simp [compare, compareOfLessAndEq, h1, h2]
+theorem compare_self (a : Int) : compare a a = .eq := by simp [compare, compareOfLessAndEq]
+theorem compare_nat_lt {a b : Nat} (h : a < b) : compare a b = .lt := Nat.compare_eq_lt.mpr h
+theorem compare_nat_gt {a b : Nat} (h : b < a) : compare a b = .gt := Nat.compare_eq_gt.mpr h
+
+theorem lex_gt_of_lt (a b : Bytes) (h : lexCmp b a = .lt) : lexCmp a b = .gt := by
+  rw [lexCmp_swap b a, h]; rfl
+
+theorem head_lt (mj n m : Nat) (hmj : mj < 8) (hm : m < 2 ^ 64) (h : n < m) : lexCmp (encHead mj n) (encHead mj m) = .lt := by
+  simpa using lexCmp_encHead_lt mj n m hmj hm h [] []
+theorem head_major (m1 m2 n1 n2 : Nat) (h : m1 < m2) (h2 : m2 < 8) (y : Bytes) : lexCmp (encHead m1 n1) (encHead m2 n2 ++ y) = .lt := by
+  simpa using lexCmp_encHead_major m1 m2 n1 n2 h h2 [] y
+
+/-- the order `Label::cmp` computes on integers, written out. -/
+def intOrd (i1 i2 : Int) : Ordering :=
+  if i1 < 0 then (if i2 < 0 then compare i2 i1 else .gt) else (if i2 < 0 then .lt else compare i1 i2)
+
+theorem cmp_int (i1 i2 : Int) : Label.cmp (.int i1) (.int i2) = .ok (intOrd i1 i2) := by
+  simp only [Label.cmp, signum, intOrd]
+  by_cases n1 : i1 < 0 <;> by_cases n2 : i2 < 0 <;> by_cases z1 : i1 = 0 <;> by_cases z2 : i2 = 0 <;>
+    simp [n1, n2, z1, z2] <;> (try omega)
+  · exact (compare_lt (by omega)).symm
+  · exact (compare_gt (by omega)).symm
+
+theorem lex_int (i1 i2 : Int) (h1 : I64 i1) (h2 : I64 i2) : lexCmp (enc (.int i1)) (enc (.int i2)) = intOrd i1 i2 := by
+  simp only [I64, i64Min, i64Max] at h1 h2
+  simp only [enc, intOrd]
+  by_cases n1 : i1 < 0
+  · have e1 : ¬ (0 ≤ i1) := by omega
+    by_cases n2 : i2 < 0
+    · have e2 : ¬ (0 ≤ i2) := by omega
+      simp only [n1, n2, e1, e2, if_true, if_false]
+      by_cases hlt : i2 < i1
+      · rw [compare_lt hlt, head_lt 1 _ _ (by decide) (by omega) (by omega)]
+      · by_cases hgt : i1 < i2
+        · rw [compare_gt hgt, lex_gt_of_lt _ _ (head_lt 1 _ _ (by decide) (by omega) (by omega))]
+        · have : i1 = i2 := by omega
+          subst this; rw [compare_self, lexCmp_refl]
+    · have e2 : 0 ≤ i2 := by omega
+      simp only [n1, n2, e1, e2, if_true, if_false]
+      exact lex_gt_of_lt _ _ (by simpa using head_major 0 1 i2.toNat (-1 - i1).toNat (by decide) (by decide) [])
+  · have e1 : 0 ≤ i1 := by omega
+    by_cases n2 : i2 < 0
+    · have e2 : ¬ (0 ≤ i2) := by omega
+      simp only [n1, n2, e1, e2, if_true, if_false]
+      simpa using head_major 0 1 i1.toNat (-1 - i2).toNat (by decide) (by decide) []
+    · have e2 : 0 ≤ i2 := by omega
+      simp only [n1, n2, e1, e2, if_true, if_false]
+      by_cases hlt : i1 < i2
+      · rw [compare_lt hlt, head_lt 0 _ _ (by decide) (by omega) (by omega)]
+      · by_cases hgt : i2 < i1
+        · rw [compare_gt hgt, lex_gt_of_lt _ _ (head_lt 0 _ _ (by decide) (by omega) (by omega))]
+        · have : i1 = i2 := by omega
+          subst this; rw [compare_self, lexCmp_refl]
+
+/-- C16: `Label::cmp` is bytewise lexicographic comparison of the deterministic encodings (and never panics). -/
+theorem cmp_is_lex (a b : Label) (ha : ValidLabel a) (hb : ValidLabel b) :
+    Label.cmp a b = .ok (lexCmp (encLabel a) (encLabel b)) := by
+  cases a with
+  | int i1 =>
+    cases b with
+    | int i2 => rw [cmp_int]; simp only [encLabel]; rw [lex_int i1 i2 ha hb]
+    | text t2 =>
+      simp only [Label.cmp, encLabel, enc]
+      by_cases e1 : 0 ≤ i1
+      · simp only [e1, if_true]; rw [head_major 0 3 _ _ (by decide) (by decide)]
+      · simp only [e1, if_false]; rw [head_major 1 3 _ _ (by decide) (by decide)]
+  | text t1 =>
+    cases b with
+    | int i2 =>
+      simp only [Label.cmp, encLabel, enc]
+      by_cases e2 : 0 ≤ i2
+      · simp only [e2, if_true]; rw [lex_gt_of_lt _ _ (head_major 0 3 _ _ (by decide) (by decide) t1)]
+      · simp only [e2, if_false]; rw [lex_gt_of_lt _ _ (head_major 1 3 _ _ (by decide) (by decide) t1)]
+    | text t2 =>
+      simp only [ValidLabel] at ha hb
+      simp only [Label.cmp, textCmp, encLabel, enc]
+      by_cases hlt : t1.length < t2.length
+      · rw [compare_nat_lt hlt, lexCmp_encHead_lt 3 _ _ (by decide) hb hlt]; rfl
+      · by_cases hgt : t2.length < t1.length
+        · rw [compare_nat_gt hgt, lex_gt_of_lt _ _ (lexCmp_encHead_lt 3 _ _ (by decide) ha hgt t2 t1)]; rfl
+        · have : t1.length = t2.length := by omega
+          rw [this, lexCmp_append_left]; simp [Ordering.then]
+
+/-- the deterministic encoding determines the label (injectivity), so `cmp = Equal` exactly for equal labels. -/
+theorem encLabel_injective (a b : Label) (ha : ValidLabel a) (hb : ValidLabel b) (h : encLabel a = encLabel b) : a = b := by
+  have h := (lexCmp_eq_iff _ _).mpr h
+  rw [← Res.ok.injEq, ← cmp_is_lex a b ha hb] at h
+  cases a with
+  | int i1 =>
+    cases b with
+    | int i2 =>
+      rw [cmp_int] at h
+      simp only [Res.ok.injEq, intOrd] at h
+      have key : i1 = i2 := by
+        by_cases n1 : i1 < 0 <;> by_cases n2 : i2 < 0 <;> simp [n1, n2] at h
+        · exact h.symm
+        · exact h
+      rw [key]
+    | text t2 => simp [Label.cmp] at h
+  | text t1 =>
+    cases b with
+    | int i2 => simp [Label.cmp] at h
+    | text t2 =>
+      simp only [Label.cmp, textCmp, Res.ok.injEq] at h
+      by_cases hl : t1.length = t2.length
+      · simp [hl, Ordering.then] at h
+        rw [(lexCmp_eq_iff _ _).mp h]
+      · have : compare t1.length t2.length ≠ .eq := by simpa [Nat.compare_eq_eq] using hl
+        cases hc : compare t1.length t2.length <;> simp_all [Ordering.then]
+
+/-- C16 (total order consistent with equality): reflexive-equal, equal only when identical, antisymmetric, transitive. -/
+theorem cmp_eq_iff (a b : Label) (ha : ValidLabel a) (hb : ValidLabel b) : Label.cmp a b = .ok .eq ↔ a = b := by
+  rw [cmp_is_lex a b ha hb]
+  constructor
+  · intro h; simp only [Res.ok.injEq] at h
+    exact encLabel_injective a b ha hb ((lexCmp_eq_iff _ _).mp h)
+  · intro h; subst h; simp [lexCmp_refl]
+
+theorem cmp_swap (a b : Label) (ha : ValidLabel a) (hb : ValidLabel b) (o : Ordering) (h : Label.cmp a b = .ok o) :
+    Label.cmp b a = .ok o.swap := by
+  rw [cmp_is_lex a b ha hb] at h; rw [cmp_is_lex b a hb ha]
+  simp only [Res.ok.injEq] at h ⊢
+  rw [lexCmp_swap, h]
+
+theorem lexCmp_trans (a b c : Bytes) (h1 : lexCmp a b = .lt) (h2 : lexCmp b c = .lt) : lexCmp a c = .lt := by
+  induction a generalizing b c with
+  | nil => cases b <;> cases c <;> simp_all [lexCmp]
+  | cons x xs ih =>
+    cases b with
+    | nil => simp [lexCmp] at h1
+    | cons y ys =>
+      cases c with
+      | nil => simp [lexCmp] at h2
+      | cons z zs =>
+        simp only [lexCmp] at h1 h2 ⊢
+        by_cases xy : x < y
+        · by_cases yz : y < z
+          · simp [UInt8.lt_trans xy yz]
+          · by_cases zy : z < y
+            · simp [yz, zy] at h2
+            · have : y = z := UInt8.le_antisymm (UInt8.not_lt.mp zy) (UInt8.not_lt.mp yz)
+              subst this; simp [xy]
+        · by_cases yx : y < x
+          · simp [xy, yx] at h1
+          · have : x = y := UInt8.le_antisymm (UInt8.not_lt.mp yx) (UInt8.not_lt.mp xy)
+            subst this
+            simp only [xy, if_false] at h1
+            by_cases yz : x < z
+            · simp [yz]
+            · by_cases zy : z < x
+              · simp [yz, zy] at h2
+              · simp only [yz, zy, if_false] at h2 ⊢
+                exact ih ys zs h1 h2
+
+theorem cmp_trans (a b c : Label) (ha : ValidLabel a) (hb : ValidLabel b) (hc : ValidLabel c)
+    (h1 : Label.cmp a b = .ok .lt) (h2 : Label.cmp b c = .ok .lt) : Label.cmp a c = .ok .lt := by
+  rw [cmp_is_lex a b ha hb] at h1; rw [cmp_is_lex b c hb hc] at h2; rw [cmp_is_lex a c ha hc]
+  simp only [Res.ok.injEq] at h1 h2 ⊢
+  exact lexCmp_trans _ _ _ h1 h2
+
+/-- C16 (canonical order): `cmp_canonical` is length-first-then-bytewise comparison of the encodings, and never panics. -/
+theorem cmp_canonical_is_lenlex (a b : Label) : Label.cmpCanonical a b = .ok (lenLex (encLabel a) (encLabel b)) := by
+  simp only [Label.cmpCanonical, toVec_eq, lenLex]
+  split <;> rfl
+
+theorem cmp_canonical_eq_iff (a b : Label) (ha : ValidLabel a) (hb : ValidLabel b) :
+    Label.cmpCanonical a b = .ok .eq ↔ a = b := by
+  rw [cmp_canonical_is_lenlex]
+  constructor
+  · intro h
+    simp only [lenLex, Res.ok.injEq] at h
+    by_cases hl : (encLabel a).length = (encLabel b).length
+    · simp [hl] at h; exact encLabel_injective a b ha hb ((lexCmp_eq_iff _ _).mp h)
+    · simp [hl, Nat.compare_eq_eq] at h
+  · intro h; subst h; simp [lenLex, lexCmp_refl]
+
+/-! ### registry-restricted labels: the same comparison through the registered integer -/
+def regEnc (R : Registry) : RegLabel → Label
+  | .assigned k => .int (R.toI64 k)
+  | .text t => .text t
+def regPrivEnc (R : Registry) : RegLabelPriv → Label
+  | .assigned k => .int (R.toI64 k)
+  | .privateUse i => .int i
+  | .text t => .text t
+
+theorem registered_cmp (R : Registry) (a b : RegLabel) (ha : ValidLabel (regEnc R a)) (hb : ValidLabel (regEnc R b)) :
+    RegLabel.cmp R a b = .ok (lexCmp (encLabel (regEnc R a)) (encLabel (regEnc R b))) := by
+  cases a <;> cases b <;> simp only [RegLabel.cmp, regEnc] at *
+  · exact cmp_is_lex _ _ ha hb
+  · simpa [Label.cmp] using cmp_is_lex (.int _) (.text _) ha hb
+  · simpa [Label.cmp] using cmp_is_lex (.text _) (.int _) ha hb
+  · simpa [Label.cmp] using cmp_is_lex (.text _) (.text _) ha hb
+
+theorem registered_private_cmp (R : Registry) (a b : RegLabelPriv) (ha : ValidLabel (regPrivEnc R a)) (hb : ValidLabel (regPrivEnc R b)) :
+    RegLabelPriv.cmp R a b = .ok (lexCmp (encLabel (regPrivEnc R a)) (encLabel (regPrivEnc R b))) := by
+  cases a <;> cases b <;> simp only [RegLabelPriv.cmp, regPrivEnc] at * <;>
+    first
+    | exact cmp_is_lex _ _ ha hb
+    | (simpa [Label.cmp] using cmp_is_lex _ _ ha hb)
+
+/-- without the "as produced by decoding or the builders" side condition equality and comparison can disagree:
+    `Assigned(RS1)` and `PrivateUse(-65535)` compare equal but are different values. -/
+example : RegLabelPriv.cmp Reg.algorithm (.assigned Gen.idx_Algorithm_RS1) (.privateUse (-65535)) = .ok .eq ∧
+    (RegLabelPriv.assigned Gen.idx_Algorithm_RS1 ≠ .privateUse (-65535)) := by decide
+
+/-- non-vacuity: the boundary pairs of the 0.3.7 bug — 23 < 24 < 255 < 256, -24 < -25 in encoded order, ints before text. -/
+example : Label.cmp (.int 23) (.int 24) = .ok .lt ∧ Label.cmp (.int 255) (.int 256) = .ok .lt ∧ Label.cmp (.int (-24)) (.int (-25)) = .ok .lt ∧
+    Label.cmp (.int (-1)) (.int 1000000) = .ok .gt ∧ Label.cmp (.int 5) (.text []) = .ok .lt ∧
+    Label.cmpCanonical (.int 256) (.int (-1)) = .ok .gt ∧ Label.cmp (.int 256) (.int (-1)) = .ok .lt := by decide
+
+#print axioms cmp_is_lex
+#print axioms encLabel_injective
+#print axioms cmp_eq_iff
+#print axioms cmp_swap
+#print axioms cmp_trans
+#print axioms cmp_canonical_is_lenlex
+#print axioms cmp_canonical_eq_iff
+#print axioms registered_cmp
+#print axioms registered_private_cmp
 
 end Coset.Props.C16
